@@ -227,7 +227,7 @@ def rate_rule(ctx):
 def run(ctx):
     rep = ctx.rep
     rep.rule("C25.R1", "writers of the tracking state", 4)
-    rep.rule("C25.R2", "reset restores the initial tracking state", 2)
+    rep.rule("C25.R2", "reset restores the initial tracking state, which is 'relative rotation zero' (no turn, quadrant 1) independent of angle0", 4)
     rep.rule("C25.R3", "guarded, idempotent turn counting in l()", 3)
     rep.rule("C25.R4", "_compute_quadrant over the 9 sign cases", 9)
     rep.rule("C25.R5", "no zero denominator under the quadrant's sign constraints", 4)
@@ -270,7 +270,23 @@ def run(ctx):
         m = cls.methods.get(mname)
         if m is not None:
             ci.update(consts(m))
+            # initialisation delegated to reset(): the initial state IS what reset sets
+            if any(isinstance(w, ast.Call) and norm_src(w.func) == "self.reset" for w in ast.walk(m)):
+                for k_, v_ in consts(res).items():
+                    ci.setdefault(k_, v_)
     cr = consts(res)
+    # the tracked quantity is the rotation RELATIVE to the defining configuration, where the joint frames coincide: x = 1, y = 0, i.e. quadrant 1
+    # and no full turn - whatever angle0 is (angle0 is an additive offset of the reported angle, not a state of the tracker)
+    WANT0 = {"n_full_rotations": "0", "previous_quadrant": "1"}
+    for f in FIELDS:
+        C0 = f"{REV}:Revolute.{'reset' if f not in consts(cls.methods.get('assembler_callback') or res) else 'assembler_callback'}"
+        if f in ci and f in WANT0:
+            if ci[f] == WANT0[f]:
+                rep.ok("C25.R2", C0, f"initial tracking state: {f} = {ci[f]} (relative rotation zero, independent of angle0)")
+            else:
+                rep.bad("C25.R2", C0, f"self.{f} = {ci[f]}", f"the tracker starts with {f} = `{ci[f]}`; it follows the rotation relative to the defining configuration, where the joint frames "
+                        f"coincide (x = 1, y = 0): the initial value must be {WANT0[f]} whatever angle0 is - with an initial quadrant taken from angle0 the first query sees a spurious "
+                        "4 -> 1 transition (angle0 in the 4th quadrant) or misses the first 1 -> 4 crossing, a permanent offset of one turn", f"{REV}:{res.lineno}")
     for f in FIELDS:
         C = f"{REV}:Revolute.reset"
         if f not in ci:
@@ -498,4 +514,14 @@ NEUTRAL = [
          old="        self.angle_dot = self.l_dot\n\n        super().__init__(", new="        self.angle_dot = self.l_dot\n\n        self.n_full_rotations = 0\n        self.previous_quadrant = 1\n\n        super().__init__("),
     dict(id="c25-n1", canary=True, what="quadrant tests reordered inside the conjunctions", file=REV,
          old="        if x > 0 and y >= 0:\n            return 1", new="        if y >= 0 and 0 < x:\n            return 1"),
+]
+MUTANTS += [
+    dict(id="c25-r2-seed", canary=True, what="[seeded by sub-agent] tracking starts in the quadrant of angle0 (assembler_callback delegates to reset)", file=REV,
+         edits=[(REV, "    def assembler_callback(self):\n        self.n_full_rotations = 0\n        self.previous_quadrant = 1\n", "    def assembler_callback(self):\n        self.reset()\n"),
+                (REV, "    def reset(self):\n        self.n_full_rotations = 0\n        self.previous_quadrant = 1", "    def reset(self):\n        self.n_full_rotations = 0\n        self.previous_quadrant = self._compute_quadrant(np.cos(self.angle0), np.sin(self.angle0))")],
+         expect="C25.R2"),
+]
+NEUTRAL += [
+    dict(id="c25-n-r2", canary=True, what="assembler_callback delegates the initialisation of the tracker to reset()", file=REV,
+         old="    def assembler_callback(self):\n        self.n_full_rotations = 0\n        self.previous_quadrant = 1\n", new="    def assembler_callback(self):\n        self.reset()\n"),
 ]
